@@ -72,6 +72,9 @@ func sc(name string, zero func(m *model.Packet) bool, apply func(p mq.ControlPac
 	return Setter{Name: name, IsZero: zero, Apply: func(p mq.ControlPacket, m *model.Packet, _ int) { apply(p, m) }}
 }
 
+// callerFilter is the TopicFilter variable a caller reuses across AddFilters calls.
+var callerFilter mq.TopicFilter
+
 // Setters returns the setter table of a packet type.
 func Setters(typ uint8) []Setter {
 	switch typ {
@@ -188,7 +191,21 @@ func Setters(typ uint8) []Setter {
 					// a caller-owned list with spare capacity, reused afterwards
 					list := make([]mq.TopicFilter, 1, 4)
 					list[0] = mq.NewTopicFilter(m.Filters[i].Filter, mq.Opt(m.Filters[i].Opts))
+					reuse := (i+len(m.Filters[i].Filter))%2 == 0
+					if reuse {
+						// one TopicFilter variable that the caller fills again
+						// for every filter it adds (a value type: what was added
+						// before is a copy and must stay as it was)
+						callerFilter.SetFilter(m.Filters[i].Filter)
+						callerFilter.SetOptions(mq.Opt(m.Filters[i].Opts))
+						list[0] = callerFilter
+					}
 					c(p).AddFilters(list...)
+					if reuse {
+						callerFilter.SetFilter("caller/next")
+						callerFilter.SetOptions(3)
+						callerFilter.SetFilter("n")
+					}
 					list[0] = mq.NewTopicFilter("caller/reused", 3)
 					_ = append(list, mq.NewTopicFilter("caller/appended", 3), mq.NewTopicFilter("caller/appended2", 3))
 				},
@@ -629,4 +646,40 @@ func WildFor(typ uint8) []string {
 		return []string{"SetSubscriptionID"}
 	}
 	return nil
+}
+
+// AppendOne appends one element, marked with tag, to one of the lists of p
+// through its public adder (which list: pick among those the type has). m must
+// be the current accessor snapshot of p; it is updated to what the accessors
+// have to report afterwards. It returns the adder's name ("" = no list).
+func AppendOne(p mq.ControlPacket, m *model.Packet, tag string, pick int) string {
+	var lists []Setter
+	for _, s := range Setters(m.Type) {
+		if s.IsList {
+			lists = append(lists, s)
+		}
+	}
+	if len(lists) == 0 {
+		return ""
+	}
+	if pick < 0 {
+		pick = -pick
+	}
+	s := lists[pick%len(lists)]
+	switch s.Name {
+	case "AddUserProp":
+		m.UserProps = append(m.UserProps, model.KV{K: tag, V: "v-" + tag})
+	case "AddSubscriptionID":
+		m.SubIDs = append(m.SubIDs, uint32(7000+len(tag)*13+int(tag[len(tag)-1])))
+	case "AddFilters":
+		m.Filters = append(m.Filters, model.Filter{Filter: tag + "/#", Opts: 1})
+	case "AddFilter":
+		m.UnsubFilters = append(m.UnsubFilters, tag+"/+")
+	case "AddReasonCode":
+		m.ReasonCodes = append(m.ReasonCodes, 0x80+uint8(tag[len(tag)-1]&7))
+	default:
+		return ""
+	}
+	s.Apply(p, m, s.Len(m)-1)
+	return s.Name
 }
